@@ -386,7 +386,7 @@ func (e *Exception) String() string {
 	}
 	var b bytes.Buffer
 	if e.val != nil {
-		b.WriteString(e.val.String())
+		b.WriteString(e.valueString())
 		b.WriteByte('\n')
 	}
 	e.writeFullStack(&b)
@@ -399,10 +399,32 @@ func (e *Exception) Error() string {
 	}
 	var b bytes.Buffer
 	if e.val != nil {
-		b.WriteString(e.val.String())
+		b.WriteString(e.valueString())
 	}
 	e.writeShortStack(&b)
 	return b.String()
+}
+
+// valueString converts the thrown value to a string for Error() and String(). Converting an object runs
+// script code (toString / valueOf / Symbol.toPrimitive, proxy traps) which may throw, and an object may have no
+// primitive conversion at all: error.Error() must not panic in these cases, so fall back to a description
+// of the object.
+func (e *Exception) valueString() (s string) {
+	obj, ok := e.val.(*Object)
+	if !ok {
+		return e.val.String()
+	}
+	defer func() {
+		if x := recover(); x != nil {
+			s = "[exception value of class " + obj.ClassName() + " cannot be converted to a string]"
+		}
+	}()
+	if ex := obj.runtime.vm.try(func() {
+		s = obj.String()
+	}); ex != nil {
+		s = "[exception value of class " + obj.ClassName() + " cannot be converted to a string]"
+	}
+	return
 }
 
 func (e *Exception) Value() Value {
